@@ -36,15 +36,25 @@ SPEC = dict(
                 "(`tick_state_no_leak`, `tick_state_no_leak_run`); defer_tick and a tick cycle deliver exactly the previous "
                 "tick's content and nothing in the first tick (`deferTick_one_tick_later`, `tickCycle_one_tick_later`); "
                 "across_ticks(fold) continues from the previous tick's accumulator (`acrossTicks_accumulates`); sort returns a "
-                "permutation that is pairwise ordered by the element order, proved a total order (`tick_op_eq_list_op_sort`). Tie: 54 tick programs "
+                "permutation that is pairwise ordered by the element order, proved a total order (`tick_op_eq_list_op_sort`). "
+                "The tick model `evalAt` is denotational (a collection is a function of the tick history), so the tick_op / "
+                "no-leak theorems unfold it; what carries the 'tick lifetime is `tick_persistence_machine_no_leak` (added in "
+                "review): an operator state machine whose cell is re-initialised by write_tick_end after every tick equals the "
+                "per-batch function, whatever state it started from. Tie: 54 tick programs "
                 "(all operators, defer_tick, tick cycles, across_ticks) compiled through FlowBuilder::generate_embedded, run "
                 "tick by tick with random batches; every tick's output is diffed with the Lean driver and checked on the real "
-                "code against plain Rust iterators and against a fresh single-tick instance (state leak); (T) the lowering "
+                "code against plain Rust iterators and against a fresh single-tick instance (state leak); added in review, "
+                "ORACLE ONLY (no theorem): every case is also driven through the runtime's own scheduler (run_available_sync "
+                "per fed batch instead of run_tick_sync) and must run exactly one tick per step — data parked in a "
+                "defer_tick_lazy handoff (DeferTick, tick cycles) does not schedule a tick by itself — and give the same "
+                "per-step outputs, i.e. the deferred values arrive exactly in the next tick that runs; (T) the lowering "
                 "table incl. tick_state_lifetime = 'tick and DeferTick -> defer_tick_lazy is re-extracted every run "
                 "(theorem lowering_table_matches of C28)."),
     level_note=("Trusted / not modelled: per-tick semantics of the DFIR operators transcribed by hand (tied by correspondence); "
                 "one tick cycle of element type i64 per program; max/min are instances of reduce; hash order of keyed fold output canonicalised by sorting; ticks are driven explicitly by "
-                "run_tick_sync (the lazy scheduling of defer_tick_lazy is outside this property)."),
+                "run_tick_sync in the model; the lazy scheduling of defer_tick_lazy (which handoffs set can_start_tick is decided "
+                "in dfir_lang meta_graph.rs) is checked by the run_available oracle on the real code only, with input streams "
+                "that never wake the runtime; keyed collections inside a tick other than fold_keyed are not modelled."),
     trusted_base=["per-tick semantics of DFIR operators with 'tick persistence transcribed from dfir_lang/src/graph/ops",
                   "harness/hv_hydro/gen_programs.py maps tick terms to Rust programs (reproducibility checked each run)",
                   "DFIR sort() modelled as List.mergeSort under Ord of i64/tuples"],
